@@ -118,10 +118,11 @@ type Contract struct {
 	Uses         []string            // lemmas / axioms assumed while verifying this function
 	Dispatch     map[string][]string // interface type name -> allowed dynamic types (proved at each invoke)
 	Recovers     bool                // the function must call the builtin recover() directly (it is meant to run deferred)
-	Bounded      string          // name of the bounded stand-in harness (no deductive verification of this function)
+	ClosureFirst [][2]string         // (ordinal of the function literal, callee) structural obligations
+	Bounded      string              // name of the bounded stand-in harness (no deductive verification of this function)
 	BoundedWhy   string
-	PanicAssumed bool                // trusted contracts only: panic(...) sites of the body are assumed unreachable (listed as an assumption)
-	Defers       []string            // functions this function must defer unconditionally (in its entry block)
+	PanicAssumed bool     // trusted contracts only: panic(...) sites of the body are assumed unreachable (listed as an assumption)
+	Defers       []string // functions this function must defer unconditionally (in its entry block)
 }
 
 type ReplayInput struct {
@@ -588,6 +589,13 @@ func (db *SpecDB) loadText(path, text, pkgHint string) error {
 					alts = append(alts, strings.TrimSpace(a))
 				}
 				cur.Dispatch[strings.TrimSpace(rest[:col])] = alts
+			case "closure-calls-first":
+				// `closure-calls-first <N> <callee>`: the N-th function literal of the body starts (after its defers) with a
+				// call of callee — structural, like `defers`: nothing that can fail or return runs before it
+				f := strings.Fields(rest)
+				if len(f) == 2 {
+					cur.ClosureFirst = append(cur.ClosureFirst, [2]string{f[0], f[1]})
+				}
 			case "bounded":
 				// `bounded <harness> <reason>`: the function is outside the contracts' reach; a bounded, exhaustive
 				// small-scope run of the real code (/verif/bounded/<harness>_test.go) stands in — never counted as proved
